@@ -311,7 +311,7 @@ def long_messages(m, seed=0):
     return None
 
 
-def concurrent(m, seed=0, threads=4, rounds=12, blocks=6):
+def concurrent(m, seed=0, threads=4, rounds=25, blocks=6):
     """The property quantifies over every key and block, not over one call at a time: several threads of one process inside the
     drivers AT THE SAME TIME (a thread pool extracting several encrypted PDFs; the module expects it -- see its cache) must each
     get the FIPS-197 / SP 800-38A result.  Every thread has its own key / IV / message and checks every result against the
@@ -348,28 +348,41 @@ def concurrent(m, seed=0, threads=4, rounds=12, blocks=6):
         if once(job) is not None:
             return None
     failures = []
-    start = threading.Barrier(threads)
 
-    def worker(job):
+    def worker(job, which, start):
+        name, args, want = calls(job)[which]
         try:
             start.wait(timeout=10)
         except Exception:  # noqa
             return
+        fn = getattr(m, name)
         for _ in range(rounds):
             if failures:
                 return
-            r = once(job)
-            if r is not None:
-                failures.append(r)
+            try:
+                got = bytes(fn(*args))
+            except Skip:
+                return
+            except Exception as e:  # noqa
+                got = f"{type(e).__name__}: {e}".encode()
+            if got != want:
+                failures.append((name, args, want, got))
                 return
     old = sys.getswitchinterval()
     sys.setswitchinterval(1e-6)
     try:
-        ts = [threading.Thread(target=worker, args=(job,), daemon=True) for job in jobs]
-        for t in ts:
-            t.start()
-        for t in ts:
-            t.join(60)
+        # one phase per driver (all threads inside the SAME driver, so that state private to one driver is contended too),
+        # then a mixed phase (state shared between drivers)
+        for which in (0, 1, 2, 3, None):
+            start = threading.Barrier(threads)
+            ts = [threading.Thread(target=worker, args=(job, (t % 4) if which is None else which, start), daemon=True)
+                  for t, job in enumerate(jobs)]
+            for t in ts:
+                t.start()
+            for t in ts:
+                t.join(60)
+            if failures:
+                break
     finally:
         sys.setswitchinterval(old)
     if not failures:
